@@ -312,7 +312,7 @@ func checkRoundRobin(c *Ctx, r *Report) {
 			if rem, ok := idx.(*ssa.BinOp); ok && rem.Op == token.REM {
 				lenOK := false
 				if call, ok := stripConv(rem.Y).(*ssa.Call); ok {
-					if bi, ok := call.Call.Value.(*ssa.Builtin); ok && bi.Name() == "len" && call.Call.Args[0] == ia.X {
+					if bi, ok := call.Call.Value.(*ssa.Builtin); ok && bi.Name() == "len" && (call.Call.Args[0] == ia.X || sameValue(call.Call.Args[0], ia.X)) {
 						lenOK = true
 					}
 				}
